@@ -2,6 +2,7 @@ package appsim
 
 import (
 	"fmt"
+	"github.com/lianxiangcloud/linkchain/libs/ser"
 	"math/big"
 	"sort"
 	"strconv"
@@ -121,6 +122,39 @@ func (c *ChainExec) addTx(kind string, tx types.Tx) int {
 	return len(c.Txs) - 1
 }
 
+// gasPrice: the fixed price of the chain, or that price plus gpd=<delta in wei> (any other price must be refused).
+func gasPrice(toks []string) *big.Int {
+	return new(big.Int).Add(big.NewInt(types.ParGasPrice), big.NewInt(argI(toks, "gpd", 0)))
+}
+
+// rawTx is the wire layout of a plain transaction (types.txdata): NewTransaction overwrites the gas price with the fixed one,
+// so a transaction with any other price has to be decoded from bytes (as a peer would send it).
+type rawTx struct {
+	AccountNonce uint64
+	Price        *big.Int
+	GasLimit     uint64
+	Recipient    *common.Address `rlp:"nil"`
+	Amount       *big.Int
+	Payload      []byte
+	V, R, S      *big.Int
+}
+
+func pricedTx(nonce uint64, to common.Address, amount *big.Int, gas uint64, price *big.Int, data []byte) (*types.Transaction, error) {
+	if price.Cmp(big.NewInt(types.ParGasPrice)) == 0 {
+		return types.NewTransaction(nonce, to, amount, gas, price, data), nil
+	}
+	raw := rawTx{AccountNonce: nonce, Price: price, GasLimit: gas, Recipient: &to, Amount: amount, Payload: data, V: new(big.Int), R: new(big.Int), S: new(big.Int)}
+	bz, err := ser.EncodeToBytes(&raw)
+	if err != nil {
+		return nil, err
+	}
+	tx := new(types.Transaction)
+	if err := ser.DecodeBytes(bz, tx); err != nil {
+		return nil, err
+	}
+	return tx, nil
+}
+
 func (c *ChainExec) admit(kind string, tx types.Tx, err error) string {
 	if err != nil {
 		return "build=" + ErrClass(err)
@@ -186,20 +220,24 @@ func (c *ChainExec) Exec(op string) string {
 		if g := argI(toks, "gas", -1); g >= 0 {
 			gas = uint64(g)
 		}
-		tx := types.NewTransaction(uint64(argI(toks, "nonce", 0)), to.Addr, amount, gas, big.NewInt(types.ParGasPrice), nil)
-		err := tx.Sign(types.GlobalSTDSigner, from.Key)
+		tx, err := pricedTx(uint64(argI(toks, "nonce", 0)), to.Addr, amount, gas, gasPrice(toks), nil)
+		if err == nil {
+			err = tx.Sign(types.GlobalSTDSigner, from.Key)
+		}
 		return c.admit("xfer", tx, err)
 	case "call": // call of the genesis test contract with one byte of calldata
 		from := c.Accts[argI(toks, "from", 0)]
-		tx := types.NewTransaction(uint64(argI(toks, "nonce", 0)), ContractAddr, big.NewInt(0), uint64(argI(toks, "gas", 1000000)), big.NewInt(types.ParGasPrice),
+		tx, err := pricedTx(uint64(argI(toks, "nonce", 0)), ContractAddr, big.NewInt(0), uint64(argI(toks, "gas", 1000000)), gasPrice(toks),
 			[]byte{byte(argI(toks, "c", 1))})
-		err := tx.Sign(types.GlobalSTDSigner, from.Key)
+		if err == nil {
+			err = tx.Sign(types.GlobalSTDSigner, from.Key)
+		}
 		return c.admit("call", tx, err)
 	case "xfertok":
 		from, to := c.Accts[argI(toks, "from", 0)], c.Accts[argI(toks, "to", 1)]
 		amount := units(argI(toks, "amount", 1))
 		gas := types.CalNewAmountGas(big.NewInt(0), types.EverLiankeFee)
-		tx := types.NewTokenTransaction(c.Tok, uint64(argI(toks, "nonce", 0)), to.Addr, amount, gas, big.NewInt(types.ParGasPrice), nil)
+		tx := types.NewTokenTransaction(c.Tok, uint64(argI(toks, "nonce", 0)), to.Addr, amount, gas, gasPrice(toks), nil)
 		err := tx.Sign(types.GlobalSTDSigner, from.Key)
 		return c.admit("xfertok", tx, err)
 	case "ain": // account -> confidential
@@ -225,6 +263,13 @@ func (c *ChainExec) Exec(op string) string {
 		ufee := c.fee(c.S.App.GetUTXOGas())
 		var dests []types.DestEntry
 		amount := units(argI(toks, "amount", 1))
+		if hi := argI(toks, "hi", -1); hi >= 0 && toks[0] == "ua" {
+			// an account-side amount beyond what the amount->scalar conversion supports (8 bytes of units): the spender
+			// claims amount + 2^hi units on both sides of the balance equation
+			big2 := new(big.Int).Mul(new(big.Int).Lsh(big.NewInt(1), uint(hi)), Unit)
+			amount = new(big.Int).Add(amount, big2)
+			in.Amount = new(big.Int).Add(in.Amount, big2)
+		}
 		if toks[0] == "uu" {
 			change := new(big.Int).Sub(new(big.Int).Sub(in.Amount, amount), ufee)
 			if f := argI(toks, "feeu", -1); f >= 0 {
@@ -238,6 +283,16 @@ func (c *ChainExec) Exec(op string) string {
 				dests = append(dests, w.Dest(change))
 			}
 		} else {
+			if argI(toks, "all", 0) == 1 {
+				// spend the whole input to the account: no confidential output at all (two rounds of the fee's fixed point)
+				amount = new(big.Int).Sub(in.Amount, c.fee(types.CalNewAmountGas(in.Amount, types.EverLiankeFee)))
+				if amount.Sign() > 0 {
+					amount = new(big.Int).Sub(in.Amount, c.fee(types.CalNewAmountGas(amount, types.EverLiankeFee)))
+				}
+				if amount.Sign() <= 0 {
+					return "build=funds"
+				}
+			}
 			afee := c.fee(types.CalNewAmountGas(amount, types.EverLiankeFee))
 			change := new(big.Int).Sub(new(big.Int).Sub(in.Amount, amount), afee)
 			if change.Sign() < 0 {
